@@ -40,14 +40,28 @@ Proof. exact @main_roundtrip_nested_mi. Qed.
 Print Assumptions C15_roundtrip_nested_multiindex.
 
 (* nested -> long -> nested: same instances and time order, variables rearranged into the order of
-   their sorted identifiers, names replaced by column_names / var_i (see Refuted.v) *)
+   their sorted identifiers, labelled by these identifiers (or by `column_names` when passed) *)
 Theorem C15_roundtrip_nested_long : forall V n c T (x : nested V) cn,
   wf_nested n c T x ->
   long_to_nested cn (nested_to_long x) =
-  mkN KSeries (names_or_default cn c) (sort_vars (n_cols x) (n_rows x)) /\
+  mkN KSeries (names_or_sorted cn (n_cols x)) (sort_vars (n_cols x) (n_rows x)) /\
   wf_panel n c T (sort_vars (n_cols x) (n_rows x)).
 Proof. exact @main_roundtrip_nested_long. Qed.
 Print Assumptions C15_roundtrip_nested_long.
+
+(* ... so the original column names come back through the long table, each on its own data: looking
+   a variable up by its identifier (pick) gives, instance by instance, the series it had *)
+Theorem C15_names_stay_with_their_data : forall V n c T (x : nested V),
+  wf_nested n c T x ->
+  let y := long_to_nested None (nested_to_long x) in
+  wf_nested n c T y /\ n_kind y = KSeries /\
+  n_cols y = sort_names (n_cols x) /\ Permutation (n_cols y) (n_cols x) /\
+  Forall2 (fun ry rx => forall d, In d (n_cols x) ->
+                        pick d (n_cols y) ry = pick d (n_cols x) rx /\
+                        length (pick d (n_cols x) rx) = 1%nat)
+          (n_rows y) (n_rows x).
+Proof. exact @main_names_stay_with_data. Qed.
+Print Assumptions C15_names_stay_with_their_data.
 
 Theorem C15_long_orders_by_identifier : forall V,
   (forall L : long V, Sorted name_lt (m_cols (long_pivot L))) /\
@@ -113,13 +127,17 @@ Theorem C15_direct_equals_indirect : forall V n c T (x : nested V),
 Proof. exact @main_direct_equals_indirect. Qed.
 Print Assumptions C15_direct_equals_indirect.
 
-(* names at the end of a path = names at the start iff every conversion on it carries names;
-   otherwise they do not depend on the names at the start at all *)
+(* names survive a path iff every conversion on it carries them (nested <-> multi-index, nested ->
+   long, long -> nested without column_names, check_X when it does not convert): then the end
+   container shows the start panel itself (same names on the same data) or, when the path went
+   through the long table, that panel with names-and-data in sorted-identifier order; if one
+   conversion does not carry names, the names at the end do not depend on the names at the start *)
 Theorem C15_names_survive_iff_carried : forall V es t (c : @cpanel V) t' (c' : @cpanel V),
-  sem_path es (t, c) = Some (t', c') ->
-  (all_carry es t = true -> c_names c' = c_names c) /\
+  cwf c -> path_ok es (t, c) -> sem_path es (t, c) = Some (t', c') ->
+  (all_carry es t = true -> c' = if through_long es then sorted_panel c else c) /\
   (all_carry es t = false ->
    forall (c2 : @cpanel V) t2 (c2' : @cpanel V),
+     cwf c2 -> path_ok es (t, c2) -> ncols_of c2 = ncols_of c ->
      sem_path es (t, c2) = Some (t2, c2') -> c_names c2' = c_names c').
 Proof. exact @names_survive_iff_carried. Qed.
 Print Assumptions C15_names_survive_iff_carried.
@@ -201,7 +219,7 @@ Example C15_nonvacuous :
   let x := mkN KArray [NStr [98]; NStr [97]] [[[1; 2]; [3; 4]]; [[5; 6]; [7; 8]]] in
   wf_nestedb 2 2 2 x = true /\
   long_to_nested None (nested_to_long x) =
-    mkN KSeries [default_name 0; default_name 1] [[[3; 4]; [1; 2]]; [[7; 8]; [5; 6]]] /\
+    mkN KSeries [NStr [97]; NStr [98]] [[[3; 4]; [1; 2]]; [[7; 8]; [5; 6]]] /\
   run_path [E_N_M; E_M_A; E_A_T; E_T_N KSeries] (RN x) =
     Ok (RN (mkN KSeries [NInt 0] [[[1; 2; 3; 4]]; [[5; 6; 7; 8]]])).
 Proof. vm_compute. repeat split. Qed.
